@@ -113,6 +113,7 @@ structure User where
   anon : Mode
   suspended : Bool := false
   tags : List String := []          -- the tags the account can be found by
+  deleted : Bool := false           -- soft-deleted ({del what=user}): the record stays, nothing reads it as an account any more
   deriving DecidableEq, Repr
 
 structure Sess where
@@ -133,6 +134,7 @@ structure World where
   nextT : Nat := 1
   meSubs : List SubRow := []                -- the users' subscriptions to their own `me` topic (no topic row goes with them)
   fndSubs : List SubRow := []               -- … and to their own `fnd` topic; both are made with the account (store.Users.Create)
+  gone : List Uid := []                     -- the accounts which were deleted ({del what=user}): nobody can log in as one of them again
   deriving DecidableEq, Repr
 
 /-- a presence message published through the hub to the sessions attached to a topic (presSubsOnline) -/
@@ -188,7 +190,10 @@ def alSet {β} (l : List (String × β)) (k : String) (v : β) : List (String ×
   if l.any (·.1 = k) then l.map (fun e => if e.1 = k then (k, v) else e) else l ++ [(k, v)]
 def alDel {β} (l : List (String × β)) (k : String) : List (String × β) := l.filter (·.1 ≠ k)
 
-def World.user? (w : World) (u : Uid) : Option User := w.users.find? (·.uid = u)
+/-- store.Users.Get: a soft-deleted account is not returned -/
+def World.user? (w : World) (u : Uid) : Option User := w.users.find? (fun x => x.uid = u && !x.deleted)
+/-- a row of the users table exists (what the foreign keys of the other tables look at) -/
+def World.hasRecord (w : World) (u : Uid) : Bool := w.users.any (·.uid = u)
 def World.sess? (w : World) (s : Sid) : Option Sess := w.sess.find? (·.sid = s)
 def World.row? (w : World) (t : TName) : Option TopicRow := w.store.find? (·.name = t)
 def World.live? (w : World) (t : TName) : Option Topic := w.live.find? (·.name = t)
@@ -229,5 +234,9 @@ def Ctx.call (c : Ctx) (name : String) (effect : World → World := id) : Ctx ×
     let c := { c with w := effect c.w }
     let c := if c.crashK ≠ 0 ∧ n = c.crashK then { c with snap := some c.w.store } else c
     (c, true)
+
+/-- an insert with a foreign key to the users table: fails (after being logged like any other call) when the account has no row -/
+def Ctx.callFK (c : Ctx) (name : String) (u : Uid) (effect : World → World := id) : Ctx × Bool :=
+  if c.w.hasRecord u then c.call name effect else ((c.call name).1, false)
 
 end Tinode.World
